@@ -442,42 +442,70 @@ Qed.
 Lemma LUInv_init n a : LUInv n a 0 (mconst 0) (mconst 0).
 Proof. constructor; intros; try lia; reflexivity. Qed.
 
-Lemma lu_inner_step n a i lo up :
+(* the step succeeds unless a multiplier has to be divided by a zero pivot *)
+Lemma lu_inner_step_ok n a i lo up :
   (i < n)%nat -> LUInv n a i lo up ->
   let up1 := lu_upper_row n i a lo up in
-  lu_lower_col n i a up1 lo = Err ESingularMatrix \/
+  ((n - i <= 1)%nat \/ up1 i i <> 0) ->
+  up1 i i = a i i - msum 0 i (fun j => lo i j * up j i) /\
   exists lo1, lu_lower_col n i a up1 lo = Ok lo1 /\ LUInv n a (S i) lo1 up1.
 Proof.
   intros Hi [I1 I2 I3 I4 I5 I6]. cbv zeta.
   rewrite lu_upper_row_len, lu_lower_col_len.
   destruct (upper_row_len_spec i (n - i) a lo up) as [HU1 HU2].
   set (up1 := upper_row_len i (n - i) a lo up) in *.
-  assert (common : ((n - i <= 1)%nat \/ up1 i i <> 0) -> ((S i < n)%nat -> up1 i i <> 0) ->
-            exists lo1, lower_col_len i (n - i) a up1 lo = Ok lo1 /\ LUInv n a (S i) lo1 up1).
-  { intros Hcase Hpiv.
-    destruct (lower_col_len_ok i (n - i) a up1 lo Hcase) as [M [HM [HM1 [HM2 HM3]]]].
-    exists M. split; [exact HM|].
-    constructor.
-    * intros r c Hr Hc Hri Hrc. destruct (Nat.eq_dec r i) as [->|Hne].
-      -- rewrite HU1 by lia. f_equal. apply msum_ext. intros t Ht.
-         rewrite HM3 by lia. rewrite HU2 by lia. reflexivity.
-      -- rewrite HU2 by lia. rewrite I1 by lia. f_equal. apply msum_ext. intros t Ht.
-         rewrite HM3 by lia. rewrite HU2 by lia. reflexivity.
-    * intros r c Hr Hc H. rewrite HU2 by lia. apply I2; lia.
-    * intros r c Hr Hc Hci Hcr. destruct (Nat.eq_dec c i) as [->|Hne].
-      -- rewrite HM2 by lia. f_equal. f_equal. apply msum_ext. intros t Ht.
-         rewrite HM3 by lia. reflexivity.
-      -- rewrite HM3 by lia. rewrite I3 by lia. rewrite (HU2 c c) by lia. f_equal. f_equal.
-         apply msum_ext. intros t Ht. rewrite HM3 by lia. rewrite HU2 by lia. reflexivity.
-    * intros r Hr Hri. destruct (Nat.eq_dec r i) as [->|Hne]; [apply HM1; lia|].
-      rewrite HM3 by lia. apply I4; lia.
-    * intros r c Hr Hc H. rewrite HM3 by lia. apply I5; lia.
-    * intros c Hci Hcn. destruct (Nat.eq_dec c i) as [->|Hne]; [apply Hpiv; exact Hcn|].
-      rewrite HU2 by lia. apply I6; lia. }
-  destruct (le_lt_dec 2 (n - i)) as [H2|H2]; [destruct (Req_EM_T (up1 i i) 0) as [Hz|Hnz]|].
-  - left. apply lower_col_len_err; assumption.
-  - right. apply common; [right; exact Hnz|intros _; exact Hnz].
-  - right. apply common; [left; lia|intro; lia].
+  intros Hcase. split; [apply HU1; lia|].
+  assert (Hpiv : (S i < n)%nat -> up1 i i <> 0) by (intro; destruct Hcase; [lia|assumption]).
+  destruct (lower_col_len_ok i (n - i) a up1 lo Hcase) as [M [HM [HM1 [HM2 HM3]]]].
+  exists M. split; [exact HM|].
+  constructor.
+  * intros r c Hr Hc Hri Hrc. destruct (Nat.eq_dec r i) as [->|Hne].
+    -- rewrite HU1 by lia. f_equal. apply msum_ext. intros t Ht.
+       rewrite HM3 by lia. rewrite HU2 by lia. reflexivity.
+    -- rewrite HU2 by lia. rewrite I1 by lia. f_equal. apply msum_ext. intros t Ht.
+       rewrite HM3 by lia. rewrite HU2 by lia. reflexivity.
+  * intros r c Hr Hc H. rewrite HU2 by lia. apply I2; lia.
+  * intros r c Hr Hc Hci Hcr. destruct (Nat.eq_dec c i) as [->|Hne].
+    -- rewrite HM2 by lia. f_equal. f_equal. apply msum_ext. intros t Ht.
+       rewrite HM3 by lia. reflexivity.
+    -- rewrite HM3 by lia. rewrite I3 by lia. rewrite (HU2 c c) by lia. f_equal. f_equal.
+       apply msum_ext. intros t Ht. rewrite HM3 by lia. rewrite HU2 by lia. reflexivity.
+  * intros r Hr Hri. destruct (Nat.eq_dec r i) as [->|Hne]; [apply HM1; lia|].
+    rewrite HM3 by lia. apply I4; lia.
+  * intros r c Hr Hc H. rewrite HM3 by lia. apply I5; lia.
+  * intros c Hci Hcn. destruct (Nat.eq_dec c i) as [->|Hne]; [apply Hpiv; exact Hcn|].
+    rewrite HU2 by lia. apply I6; lia.
+Qed.
+
+Lemma lu_inner_step n a i lo up :
+  (i < n)%nat -> LUInv n a i lo up ->
+  let up1 := lu_upper_row n i a lo up in
+  lu_lower_col n i a up1 lo = Err ESingularMatrix \/
+  exists lo1, lu_lower_col n i a up1 lo = Ok lo1 /\ LUInv n a (S i) lo1 up1.
+Proof.
+  intros Hi Hinv. cbv zeta.
+  destruct (le_lt_dec 2 (n - i)) as [H2|H2];
+    [destruct (Req_EM_T (lu_upper_row n i a lo up i i) 0) as [Hz|Hnz]|].
+  - left. rewrite lu_lower_col_len. apply lower_col_len_err; assumption.
+  - right. apply (lu_inner_step_ok n a i lo up Hi Hinv). right; exact Hnz.
+  - right. apply (lu_inner_step_ok n a i lo up Hi Hinv). left; lia.
+Qed.
+
+(* the same for one iteration of the outer loop *)
+Lemma lu_step_ok n a i lo up :
+  (i < n)%nat -> LUInv n a i lo up ->
+  ((n - i <= 1)%nat \/ a i i - msum 0 i (fun j => lo i j * up j i) <> 0) ->
+  exists lo' up', lu_step n a i (Ok (lo, up)) = Ok (lo', up') /\ LUInv n a (S i) lo' up'.
+Proof.
+  intros Hi Hinv Hcase.
+  destruct (lu_inner_step_ok n a i lo up Hi Hinv) as [E [lo1 [Hlo1 Hinv1]]].
+  - destruct Hcase as [H|H]; [left; exact H|right].
+    destruct (lu_inner_step_ok n a i lo up Hi Hinv) as [E _]; [|cbv zeta in E; rewrite E; exact H].
+    (* the value of the pivot does not depend on the case analysis: read it off the row loop *)
+    right. intro Hz. apply H. rewrite lu_upper_row_len in Hz.
+    destruct (upper_row_len_spec i (n - i) a lo up) as [HU1 _]. rewrite <- HU1 by lia. exact Hz.
+  - cbv zeta in Hlo1. cbn [lu_step]. rewrite Hlo1. eexists _, _. split; [reflexivity|].
+    eapply LUInv_meq; [| |exact Hinv1]; apply meq_sym, meq_retab.
 Qed.
 
 Definition lu_post (n : nat) (a : mat R) (i : nat) (acc : res (mat R * mat R)) : Prop :=
